@@ -73,6 +73,9 @@ def install_clock():
 
     api._time = lambda: 0.0
     store.current_timestamp = lambda: 1700000000000
+    import dds.codecs.databricks as dbx  # binds current_timestamp by name at import
+
+    dbx.current_timestamp = store.current_timestamp
 
 
 def quiet_logs():
@@ -145,3 +148,10 @@ def is_concrete(v):
         return True
     with NoTracing():
         return type(v) in (int, float, str, bool, bytes, type(None))
+
+
+def decode_args(args):
+    """JSON-safe counterexample arguments back to Python values (bytes are stored as {"__bytes__": hex})."""
+    if not isinstance(args, dict):
+        return args
+    return dict((k, (bytes.fromhex(v["__bytes__"]) if isinstance(v, dict) and "__bytes__" in v else v)) for k, v in args.items())
